@@ -1,7 +1,7 @@
 """C12: constraint-based discovery with an exact d-separation oracle; PDAG extension (E1)."""
 from itertools import combinations, permutations, product
 
-from mc.gen.dags import all_dags, is_acyclic, subsets
+from mc.gen.dags import all_dags, is_acyclic, iso_classes, subsets
 from mc.ref.graphs import G
 from mc.stats import Stats
 
@@ -14,7 +14,7 @@ RULE = ("E1: every labelled DAG up to the node bound as ground truth x every col
         "same skeleton and v-structures). non-trivial = distinct ground truths with at least one compelled and one "
         "reversible edge, or PDAGs with >=1 undirected edge")
 BOUNDS = {"quick": "PC: all DAGs n<=4 x all column orders (n=4: the 12 even permutations) x 3 variants x callable oracle; independence_match on n<=4 with 3 relabelings; "
-                   "skeleton_to_pdag: all sepset choices n<=4 and all 29281 DAGs on 5 nodes (minimal sepsets, one node order); to_dag: all 4^6 PDAG codes on 4 nodes (and n<=3)",
+                   "skeleton_to_pdag: all sepset choices n<=4 and all 29281 DAGs on 5 nodes (minimal sepsets, one node order); complete PC on the 302 classes of 5-node DAGs x 2 column orders x 3 variants; to_dag: all 4^6 PDAG codes on 4 nodes (and n<=3)",
           "thorough": "adds all 29281 DAGs on 5 nodes x 6 column orders x {orig, stable}"}
 EXHAUSTIVE = {"quick": True, "thorough": True}
 ASSUMPTIONS = ["max_cond_vars in {n, maximum degree of the true skeleton} (the property requires >= max degree)", "independence_match needs every variable to occur in some statement (PC reads the variable set from the list)"]
@@ -65,6 +65,11 @@ def groups(tier, seed):
     if tier == "thorough":
         for i in range(0, 29281, 150):
             out.append({"part": "pc5", "n": 5, "lo": i, "hi": min(i + 150, 29281)})
+    else:
+        # the complete algorithm (skeleton phase included) on the 302 isomorphism classes of 5-node DAGs, 2 column orders, 3 variants
+        iso5 = iso_classes(5)
+        for i in range(0, len(iso5), 8):
+            out.append({"part": "pc5iso", "dags": [[list(e) for e in d] for d in iso5[i:i + 8]], "rot": seed})
     return out
 
 
@@ -86,6 +91,9 @@ def run_group(g, tier):
         dags = _dags(g["n"])
         for i in range(g["lo"], g["hi"]):
             _pc(st, g["n"], dags[i], tier, five=(g["part"] == "pc5"))
+    elif g["part"] == "pc5iso":
+        for d in g["dags"]:
+            _pc(st, 5, tuple(tuple(e) for e in d), tier, five=True, norders=2, rot=g["rot"])
     elif g["part"] == "s2p5":
         dags = _dags(5)
         for i in range(g["lo"], g["hi"]):
@@ -114,7 +122,7 @@ def replay(case):
 
 
 # ------------------------------------------------------------------ PC
-def _pc(st, n, edges, tier, five=False):
+def _pc(st, n, edges, tier, five=False, norders=6, rot=0):
     g = G(n, edges)
     d, u, members = cpdag_of(n, edges) if n <= 4 else (None, None, None)
     st.states += 1
@@ -122,13 +130,13 @@ def _pc(st, n, edges, tier, five=False):
         st.nt(edges)
     orders = list(permutations(range(n)))
     if five:
-        k = hash(edges) % 20
-        orders = [orders[(k + 20 * j) % 120] for j in range(6)]
+        k = (hash(edges) + rot) % 20
+        orders = [orders[(k + 20 * j) % 120] for j in range(6)][:norders]
     if n == 4 and tier == "quick":
         # the 12 even permutations already realise both relative orders of every pair of nodes
         orders = [o for o in orders if sum(1 for i in range(4) for j in range(i) if o[j] > o[i]) % 2 == 0]
     for order in orders:
-        for variant in (("orig", "stable") if five else ("orig", "stable", "parallel")):
+        for variant in (("orig", "stable") if (five and norders == 6) else ("orig", "stable", "parallel")):
             for rt in (("cpdag",) if five else ("skeleton", "pdag", "cpdag", "dag")):
                 if rt == "pdag" and variant != "orig":
                     continue  # same code path as cpdag; one variant suffices
